@@ -153,6 +153,12 @@ fn odd_strings_base() -> Vec<String> {
         "\u{202e}rtl".into(),
         "-".into(),
         "a-b-c:1".into(),
+        "#! \necho".into(),
+        "#!\t\n".into(),
+        "#!  ".into(),
+        "#!".into(),
+        "#!\n".into(),
+        "ends in a line feed\n".into(),
     ]
 }
 
